@@ -49,9 +49,18 @@ func VerifC03_TimeNow() { c03TimeNow(1, 32) }
 // of the float result by 12 makes the queries much harder).
 func VerifC03_TimeNow12() { c03TimeNow(12, 32) }
 
-func c03TimeNow(k uint64, spe uint64) {
+// VerifC03_TimeNowRelaxed: the wall-clock side for every instant, with 1 s, 12 s
+// and 5 s slots, in Int mode with float64 relaxed over the reals (every
+// rounding step may err by up to the IEEE-754 bound): a proof here holds for the
+// real float64 semantics; the exact float64 encoding is the thorough tier.
+func VerifC03_TimeNowRelaxed() {
+	c03TimeNowAt([]uint64{1, 12, 5}[vnd.Choose("slot-duration", 3)], 32, vnd.U64("elapsed.nsec"))
+}
+
+func c03TimeNow(k uint64, spe uint64) { c03TimeNowAt(k, spe, vnd.U64("elapsed.nsec")) }
+
+func c03TimeNowAt(k uint64, spe uint64, nsec uint64) {
 	sec := vnd.U64("elapsed.sec")
-	nsec := vnd.U64("elapsed.nsec")
 	vnd.Assume(sec < 1<<33 && nsec < 1000000000)
 	elapsed := time.Duration(sec)*time.Second + time.Duration(nsec)
 	s := &Service{genesisTime: time.Unix(0, vnd.NowNs()-int64(elapsed)), slotDuration: time.Duration(k) * time.Second, slotsPerEpoch: spe}
